@@ -19,9 +19,9 @@ ASSUMPTIONS = ["per box, pixels where the level holds only one of the two bracke
                "not judged for the exact value (statement does not single out a value)",
                "pool shim M1"]
 REQUIRED_OBS = {"plotfiles_written": 100, "boxes_checked": 300, "pixels_decided": 5000,
-                "splitting_cases": 1, "multi_level": 20}
+                "splitting_cases": 1, "multi_level": 20, "cli_runs": 10}
 TIMEOUT = {"quick": 600, "thorough": 3000}
-NAMES = ["ax", "ay", "az", "tagx", "tagy", "tagz", "rnd"]
+NAMES = ["ax", "ay", "az", "tagx", "tagy", "tagz", "rnd", "near"]
 
 
 def cases(tier, seed):
@@ -173,6 +173,63 @@ def level_not_met(m, L, n, pos):
     return False
 
 
+def cli_vs_api(case, work, rec, m, path, digest, rng):
+    """the mandoline entry point in plotfile format must write what the API writes for the same request
+    (position 0.0 and level limit 0 - falsy values - included)"""
+    from amr_kitchen.mandoline import Mandoline
+    cli = common.repo_module("amr_kitchen.mandoline.cli")
+    finest = m.nlevels - 1
+    reqs = []
+    for n in range(3):
+        lo, hi = m.geo_low[n], m.geo_high[n]
+        cands = [lo + (hi - lo) * rng.random()]
+        if lo <= 0.0 <= hi:
+            cands.append(0.0)
+        for pos in cands:
+            if slicemodel.too_close_to_centre(m, finest, n, pos) and pos != 0.0:
+                continue
+            reqs.append((n, pos, rng.choice([None, 0, finest])))
+    for n, pos, limit in reqs[:4]:
+        fl = rng.choice([["rnd"], ["a" + "xyz"[n], "rnd"]])
+        o_api = os.path.join(work, "api_slice")
+        o_cli = os.path.join(work, "cli_slice")
+        for o in (o_api, o_cli):
+            if os.path.exists(o):
+                shutil.rmtree(o)
+        args = ["mandoline", "-n", str(n), "-p", repr(pos), "-v"] + fl + ["-f", "plotfile", "-o", o_cli, "-V", "0", "-s"]
+        if limit is not None:
+            args += ["-L", str(limit)]
+        args.append(path)
+        key = (digest, "cli", n, pos, limit, tuple(fl))
+        poison.set_poison(np.nan)
+        pools.CTL.reset(mode="inproc", seed=1)
+        try:
+            Mandoline(path, fields=list(fl), limit_level=limit, serial=True, verbose=0).slice(
+                normal=n, pos=pos, outfile=o_api, fformat="plotfile")
+            api_ok = True
+        except Exception:
+            api_ok = False
+        try:
+            with common.argv(args):
+                cli.main()
+            cli_ok = True
+        except (Exception, SystemExit):
+            cli_ok = False
+        rec.count("cli_runs")
+        if pos == 0.0:
+            rec.count("cli_position_zero")
+        if limit == 0:
+            rec.count("cli_level_zero")
+        if api_ok != cli_ok:
+            rec.violation(f"mandoline entry point and API disagree on whether the request can be served "
+                          f"(API ok={api_ok}, entry point ok={cli_ok}): {' '.join(args[1:-1])}", key=key)
+        elif api_ok and refmodel.tree_digest(o_api) != refmodel.tree_digest(o_cli):
+            rec.violation(f"mandoline entry point wrote another slice plotfile than the API for the same request: "
+                          f"{' '.join(args[1:-1])}", key=key, witness={"argv": args[1:-1]})
+        else:
+            rec.ok(key, pos == 0.0 or limit == 0)
+
+
 def run_case(case, work, rec):
     from amr_kitchen.mandoline import Mandoline
     rng = random.Random(case["sel_seed"])
@@ -180,6 +237,8 @@ def run_case(case, work, rec):
     digest = common.sha(case["gen"])
     rec.sample({"plotfile": gen.describe(m), "kind": case["kind"]})
     finest = m.nlevels - 1
+    if case["kind"] == "geom":
+        cli_vs_api(case, work, rec, m, path, digest, rng)
     vols = {}
     jobs = []
     if case["kind"] == "split":
@@ -192,7 +251,7 @@ def run_case(case, work, rec):
                 plist = slicemodel.positions(m, L, n, rng, 2)
                 rng.shuffle(plist)
                 for cp in plist[:case["npos"]]:
-                    fl = rng.choice([list(NAMES), ["a" + "xyz"[n], "tag" + "xyz"[n], "rnd"], ["rnd"], ["tagx", "ay"]])
+                    fl = rng.choice([list(NAMES), ["a" + "xyz"[n], "tag" + "xyz"[n], "rnd"], ["rnd"], ["tagx", "ay"], ["near", "az"]])
                     jobs.append((n, cp, limit, fl))
     for n, (cls, pos), limit, fl in jobs:
         L = finest if limit is None else limit
